@@ -54,6 +54,11 @@ def state_desc(rng, state, unique=None, n_files=None, exact=False):
     unique = unique if unique is not None else set()
     if state in ("tool_cas", "peer_cas"):
         d["files"] = [fd_small(rng, "cas", unique) for _ in range(n_files if n_files is not None else rng.randint(1, 3))]
+        if state == "peer_cas" and rng.chance(0.2):
+            d["nulpad"] = True          # another writer's convention: the name field padded with NULs
+            if rng.chance(0.3) and "" .ljust(8) not in unique:
+                d["files"][0]["name"] = ""
+                unique.add("".ljust(8))
     elif state in ("tool_dsk", "peer_dsk"):
         d["files"] = [fd_small(rng, "dsk", unique) for _ in range(n_files if n_files is not None else rng.randint(1, 3))]
         if rng.chance(0.06):
@@ -61,6 +66,8 @@ def state_desc(rng, state, unique=None, n_files=None, exact=False):
             big = fd_small(rng, "dsk", unique)
             big.update({"ftype": rng.choice([0, 1, 3]), "dtype": 0xFF, "len": rng.choice([65536, 70000, 90000]), "content": rng.choice(["ascii", "counter"])})
             d["files"] = d["files"][:1] + [big]
+        if state == "peer_dsk" and rng.chance(0.08):
+            d["bait"] = True            # granule 0 starts with bytes that look like the opening of a tape
         if state == "peer_dsk" and n_files is None and rng.chance(0.35):
             d["files"].append(fd_small(rng, "dsk", unique))
             d["files"].append(fd_small(rng, "dsk", unique))
@@ -72,7 +79,9 @@ def state_desc(rng, state, unique=None, n_files=None, exact=False):
             fd = GF.file_desc(rng, "cas", big_ok=False, unique=unique)
             fd.update({"len": rng.choice([60000, 56000, 65535]), "content": c})
             d["files"].append(fd)
-        if exact:
+        if exact and rng.chance(0.35):
+            d["chimera"] = True         # exactly disk sized, and the bytes at the table / directory offsets read like a disk's
+        elif exact:
             # boundary of the size test: a tape of exactly 161,280 bytes (the harness solves for the last length)
             d["files"][0]["len"] = d["files"][1]["len"] = 60000
             d["files"][2]["content"] = c if c != "counter" else "zeros"
@@ -103,7 +112,7 @@ class HostProp(object):
 
     def run(self, case):
         res = Result()
-        host = Host(res, self.oracles)
+        host = Host(res, self.oracles, optimize=int(case.get("pyopt", 0)))
         for k, op in enumerate(case["ops"]):
             kind = op["op"]
             res.steps += 1
@@ -198,8 +207,12 @@ class C10(HostProp):
         n_matrix = 120 if tier == "quick" else 120 * 8
         if i < n_matrix:
             cli, sw, ap, st = (self.CELLS + self.EXTRA)[i % 120]
-            return self.cell(rng, cli, sw, ap, st)
-        return self.sequence(rng)
+            case = self.cell(rng, cli, sw, ap, st)
+        else:
+            case = self.sequence(rng)
+        # interpreter configuration: a third of the simulated hosts run their processes the way `python -O` does
+        case["pyopt"] = 1 if rng.chance(0.34) else 0
+        return case
 
     def invocation(self, rng, cli, sw, path, append, src=None):
         if cli == "assembler":
@@ -229,6 +242,8 @@ class C10(HostProp):
         if rng.chance(0.12):
             paths[0] = "~/" + paths[0]
             ops.extend(tilde_setup(rng, paths[0][2:], unique))
+        elif len(paths) > 1 and rng.chance(0.15):
+            paths[1] = paths[0] + rng.choice([".tmp", ".bak", "~", ".new"])      # two targets whose names are related
         for p in paths:
             if rng.chance(0.7):
                 st = rng.choice(STATES[:8] + ["peer_cas_hibit"])
@@ -287,9 +302,24 @@ class C09(HostProp):
         return 420 if tier == "quick" else 8_000
 
     def generate(self, rng, tier, i):
+        case = self.generate_case(rng, tier, i)
+        case["pyopt"] = 1 if rng.chance(0.2) else 0
+        return case
+
+    def generate_case(self, rng, tier, i):
         profile = rng.weighted([("mixed", 7), ("big_tape", 1), ("medium_full", 1), ("tool_chain", 3)])
         unique = set()
         ops = []
+        if i == 0 or (tier == "thorough" and i % 997 == 0):
+            # a tape far beyond any disk size (a tape has no capacity): 13..15 files of about 64 KB, then appends
+            files = []
+            for j in range(rng.randint(13, 15)):
+                fd = GF.file_desc(rng, "cas", big_ok=False, unique=unique)
+                fd.update({"len": rng.randint(60000, 65535), "content": rng.choice(["counter", "zeros", "prng"]), "ftype": 2, "dtype": 0})
+                files.append(fd)
+            ops.append({"op": "setup", "path": "huge.cas", "state": "tool_cas", "seed": 1, "files": files})
+            ops.append(self.add_op(rng, "huge.cas", "cas", unique, append=True))
+            return {"profile": "huge_tape", "ops": ops}
         if profile == "big_tape":
             path = "big.cas"
             ops.append({"op": "setup", "path": path, **state_desc(rng, "big_cas", unique, exact=rng.chance(0.4))})
@@ -421,7 +451,15 @@ class C11(HostProp):
             val = rng.choice([(org or 0) + 2, 0x3F02, 0x1234])
             lines.insert(rng.randint(0, len(lines)), "ENTRY EQU $%X\n" % val)
             lines.append(" END ENTRY\n")
+        if nam is not None and rng.chance(0.3):
+            # the NAM line need not open the program
+            namline = [l for l in lines if l.startswith(" NAM ")]
+            rest = [l for l in lines if not l.startswith(" NAM ")]
+            pos = rng.randint(1, len(rest))
+            lines = rest[:pos] + namline + rest[pos:]
         inv = {"op": "asm", "lines": lines, "name": cli_name, "print": rng.chance(0.2), "symbols": rng.chance(0.2)}
+        if rng.chance(0.15):
+            inv["srcpath"] = rng.choice(["proj/src.asm", "a/b/main.asm", "./src.asm"])
         switches = [k for k in KINDS if rng.chance(0.5)] or [rng.choice(KINDS)]
         unique = set()
         for k in switches:
